@@ -265,7 +265,8 @@ def jobs_C06(rng, tier):
 def jobs_C07(rng, tier):
     js = []
     R = scale_n(tier, 10, 100)
-    fams = ["ints", "dyadic8", "ties", "zeros", "rampup", "rampdown", "spike", "flat_after_volatile", "affine", "sawtooth", "big_small", "dyadic1024"]
+    fams = ["ints", "dyadic8", "ties", "zeros", "rampup", "rampdown", "spike", "flat_after_volatile", "affine", "sawtooth", "big_small", "dyadic1024",
+            "decimal", "const_decimal", "fav_decimal"]
     spec = [  # (view, lo, hi, extra)
         ("rsi", 0, 100, {}), ("myrsi", -1, 1, {}), ("hln", -1, 1, {}), ("cti", -1, 1, dict(slack=F(1, 10 ** 12))),
         ("net", -1, 1, {}), ("lagrsi", 0, 1, {}), ("bent", 0, 1, dict(slack=F(1, 10 ** 12))),
@@ -299,7 +300,8 @@ def jobs_C07(rng, tier):
         js.append(Relation("range", mk("drawdown", ECHO, []), [pos], dict(lo=F(0), hi=F(1), strict_hi=True, nondecreasing=True)))
         js.append(Relation("range", mk("cog", ECHO, [n]), [pos], dict(lo=-F(n - 1, 2), hi=F(n - 1, 2))))
     # the same bounds on the f64 code itself (measurement): few-ulp slack, non-degenerate families
-    nf = ["ints", "dyadic8", "ties", "rampup", "rampdown", "spike", "affine", "sawtooth", "dyadic1024", "flat_after_volatile", "fav_long"]
+    nf = ["ints", "dyadic8", "ties", "rampup", "rampdown", "spike", "affine", "sawtooth", "dyadic1024", "flat_after_volatile", "fav_long",
+          "decimal", "const_decimal", "fav_decimal"]
     for nm, lo, hi, extra in spec:
         for _ in range(R * 2):
             n = rng.randint(2, 9)
@@ -323,6 +325,10 @@ def jobs_C08(rng, tier):
             e = mk(nm, ECHO, gen.gen_params(rng, nm, 9))
             n = gen.window_of(e)
             fam, xs = stream_for(rng, e, 3 * n + 10, families=["ints", "dyadic8", "ties", "spike", "rampup", "sawtooth", "flat_after_volatile", "zeros"] if nm not in ("roc",) else ["rampup", "dyadic8", "spike"])
+            if nm == "roc":
+                # Roc holds its previous answer (none at the start) while its base is exactly 0 (C02): "from the 1st value" is only
+                # demanded of streams that do not start at 0 — a positive stream here; zero bases are exercised by C02 / C03
+                fam, xs = gen.gen_stream(rng, 3 * n + 10, n, positive=True, families=["rampup", "dyadic8", "spike"])
             ps = {}
             if nm in FIRST:
                 ps["first"] = n if FIRST[nm] == "N" else FIRST[nm]
@@ -430,6 +436,16 @@ def jobs_C09(rng, tier):
                 p1 = [F(rng.randint(-1024, 1024), 8) for _ in range(merge)]
                 p2 = [F(rng.randint(-1024, 1024), 8) for _ in range(merge)]
                 js.append(Relation("converge", e, [p1 + tail, p2 + tail], dict(merge=merge, lag=lag, scale=1.0), mode="f"))
+                if n in (3, 4, 8, 16):
+                    # ordinary heads, then a common tail in a tiny unit (2^-30 .. 2^-45): an absolute threshold inside a
+                    # normaliser (a guard `> epsilon` instead of `> 0`) freezes or kills the output there
+                    k2 = rng.choice([30, 36, 45])
+                    u = F(1, 2 ** k2)
+                    # TrendFlex / ReFlex forget through a 0.96-per-step leaky mean square: the head (|x| <= 128) has to fade
+                    # below 1e-8 of a tail in units of 2^-k2 before the outputs can agree: that many steps, plus a margin
+                    lag2 = max(lag, int((2 * (5 + k2 * 0.6931) + 19) / 0.0408) + 300) if nm in ("tflex", "rflex") else max(lag, 1200)
+                    tiny = [F(rng.randint(-1024, 1024), 1024) * u for _ in range(lag2 + 40)]
+                    js.append(Relation("converge", e, [p1 + tiny, p2 + tiny], dict(merge=merge, lag=lag2, scale=1.0 if nm in ("tflex", "rflex", "lagrsi", "eft") else float(u)), mode="f"))
                 js.append(Corr(e, "f", xs_ops("f", xs[:200]), "f64", scale=B, n=neff))
     # chains built from recursive views
     for _ in range(scale_n(tier, 12, 100)):
@@ -459,6 +475,17 @@ def jobs_C10(rng, tier):
             a, b = F(rng.choice([-3, -1, 0, 1, 2, 5]), rng.choice([1, 2, 4])), F(rng.choice([-2, -1, 0, 1, 3]), rng.choice([1, 2]))
             js.append(Relation("linear", e, [xs, ys, [a * x + b * y for x, y in zip(xs, ys)]], dict(a=a, b=b)))
             js += both_mode_corr(e, xs, n=n)[1:]
+        # superposition has no scale: streams in tiny / huge units and tiny scalars (exact arithmetic), so that an absolute
+        # threshold anywhere inside the filter (a "flush to zero below epsilon") shows as a non-linearity
+        for _ in range(max(3, R // 3)):
+            e = rec_expr(rng, nm, rng.randint(1, 8)) if nm in ("lagf", "roof", "cc") else mk(nm, ECHO, [rng.randint(1, 8)])
+            n = gen.window_of(e)
+            L = min(3 * n + 8, 30)
+            u = F(2) ** rng.choice([-70, -60, -52, -45, 40, 60])
+            xs = [x * u for x in gen.gen_stream(rng, L, n)[1]]
+            ys = [y * u for y in gen.gen_stream(rng, L, n)[1]]
+            a, b = rng.choice([(F(1), F(-1)), (F(2) ** -50, -F(2) ** -52), (F(3), F(1, 2)), (F(2) ** 30, F(1))])
+            js.append(Relation("linear", e, [xs, ys, [a * x + b * y for x, y in zip(xs, ys)]], dict(a=a, b=b)))
         # inputs engineered so the internal state hits exactly zero (x, then -x scaled)
         for _ in range(max(2, R // 4)):
             e = mk(nm, ECHO, [3]) if nm not in ("lagf", "roof", "cc") else rec_expr(rng, nm, 3)
@@ -661,7 +688,7 @@ def jobs_C14(rng, tier):
 def jobs_C15(rng, tier):
     js = []
     R = scale_n(tier, 1, 4)
-    fams = ["ints", "dyadic8", "ties", "zeros", "rampup", "spike", "flat_after_volatile", "sawtooth"]
+    fams = ["ints", "dyadic8", "ties", "zeros", "rampup", "spike", "flat_after_volatile", "sawtooth", "decimal", "const_decimal", "fav_decimal"]
 
     def ops_for(xs, mode="f"):
         ops = []
@@ -714,6 +741,11 @@ class FpTrack(Job):
     kind = "fptrack"
 
     def __init__(self, e, xs, eps, scale_kind, fmode="f", fam=None, flat_from=None, expect=None):
+        if fmode == "s":
+            # the f32 run receives the inputs rounded to f32: the exact run must be given the same values, otherwise the
+            # comparison measures the rounding of the INPUTS (which no view can undo), not the view
+            import struct
+            xs = [F(struct.unpack("f", struct.pack("f", float(x)))[0]) for x in xs]
         self.e, self.xs, self.eps, self.scale_kind, self.fmode, self.fam, self.flat_from, self.expect = e, xs, eps, scale_kind, fmode, fam, flat_from, expect
 
     def impl_rel_cases(self):
@@ -1179,6 +1211,17 @@ def finding_matches(entry, job, failure):
     fam = getattr(job, "fam", None) or (getattr(job, "params", {}) or {}).get("fam")
     if m.get("fam") and fam not in m["fam"]:
         return False
+    # the finding describes a particular kind of wrong value (a small excess over a bound, finite rounding residue): a NaN,
+    # an infinity or a grossly different value on the same view is a different violation and is reported
+    if m.get("actual_finite") or m.get("actual_abs_max") is not None:
+        try:
+            a = float(failure.get("actual"))
+        except (TypeError, ValueError):
+            return False
+        if a != a or a in (float("inf"), float("-inf")):
+            return False
+        if m.get("actual_abs_max") is not None and abs(a) > m["actual_abs_max"]:
+            return False
     return True
 
 
